@@ -29,7 +29,7 @@ TRUST = [
     "numpy's summation order inside np.sum (histogram normalisation, intersection) is modelled as a left fold; compared with rel 1e-9",
     "thin-margin rule: a drift decision that differs while the Page-Hinkley margin |diff - theta| is in (0, 1e-9) on the model's or "
     "the implementation's statistics is truncated, an exact tie on both sides is decisive",
-    "excluded configurations: window_size = 0, round(sample_period*window_size) <= 0, NaN/inf data, constant components",
+    "excluded configurations: window_size = 0, round(sample_period*window_size) <= 0, NaN/inf data, windows in which every feature is constant",
 ]
 
 CHUNK = 64          # samples by which a case is extended per driver round
@@ -61,6 +61,9 @@ def make_stream(spec):
             # feature j becomes a (noisy) copy of feature j2 with sign `amount`
             j2 = (j + 1) % d
             X[at:, j] = amount * X[at:, j2] + 0.25 * Z[at:, j]
+        elif what == "freeze":
+            # feature j is exactly constant on rows at .. at+amount-1 (a stuck sensor): zero variance in a whole window
+            X[at:at + int(amount), j] = X[at, j]
     return np.round(X * 1024) / 1024
 
 
@@ -351,6 +354,12 @@ def gen_case(rng, idx, w, metric, kind):
                       "corr": float(rng.choice([-1.0, 1.0]))}[what]
             shifts.append((at, what, j, amount))
             at += int(rng.integers(3 * w // 2, 3 * w))
+        if rng.random() < .4:
+            # a feature that is exactly constant over the whole first reference window and comes alive while the test window
+            # fills (or later): StandardScaler's zero-variance rule (scale 1) decides what the next reference window holds
+            shifts.insert(0, (0, "freeze", int(rng.integers(0, d)), float(w + int(rng.integers(1, 2 * w)))))
+            if rng.random() < .5 and shifts[-1][0] + 2 * w < n:
+                shifts.append((shifts[-1][0] + w // 2, "freeze", int(rng.integers(0, d)), float(w + int(rng.integers(1, w)))))
     spec = {"kind": kind, "seed": int(rng.integers(1, 2 ** 31)), "d": d, "n": n, "w": w,
             "scales": SCALES[int(rng.integers(0, len(SCALES)))], "shifts": shifts}
     cfg = {"w": w, "ev": float(rng.choice([0.5, 0.9, 0.99])), "delta": float(rng.choice(DELTAS)),
